@@ -30,6 +30,8 @@
 //	DC3  SPDX has no record for packages without PURL or whose PURL lacks name or version; nothing is demanded.
 //	DC4  SPDX carries locations only as free text and at most the first two; only those are demanded.
 //	DC5  SPDX 2.3 and CycloneDX have no field for layer details; nothing is demanded there.
+//	     (components are compared with what the wrapped packageurl-go library prints/parses: the purl
+//	     package documents itself as a convenience wrapper around it, so nothing may be lost in between)
 //	DC6  print→parse may normalise (case, qualifier order, empty qualifiers); only idempotence
 //	     of the second application is demanded, never s2 == s1.
 //	DC7  the value of Ecosystem() (only that it does not panic).
@@ -61,6 +63,7 @@ import (
 	"github.com/google/osv-scalibr/packageindex"
 	"github.com/google/osv-scalibr/plugin"
 	"github.com/google/osv-scalibr/purl"
+	packageurl "github.com/package-url/packageurl-go"
 	"github.com/spdx/tools-golang/spdx/v2/v2_3"
 	"verif/ev"
 	"verif/harvest"
@@ -177,6 +180,24 @@ func judgeOne(it *harvest.Item) (vs []viol, pu *purl.PackageURL, purlPanicked bo
 				add("purl-unparsable:"+strings.ToLower(pu.Type)+":"+errClass(err), "ToPURL gave %q (%+v) which purl.FromString cannot parse: %v", s1, *pu, err)
 			}
 		} else {
+			// nothing is lost between print and parse: the reference for the components is the
+			// packageurl-go library that the purl package wraps (same print, same parse)
+			ref := packageurl.PackageURL{Type: pu.Type, Namespace: pu.Namespace, Name: pu.Name, Version: pu.Version, Qualifiers: packageurl.Qualifiers(pu.Qualifiers), Subpath: pu.Subpath}
+			if rs := ref.ToString(); rs != s1 {
+				add("purl-print-differs-from-library:"+strings.ToLower(pu.Type), "PURL %+v prints as %q, the wrapped purl library prints %q", *pu, s1, rs)
+			} else if rp, rerr := packageurl.FromString(rs); rerr == nil {
+				diff := func(c, a, b string) {
+					if a != b {
+						add("purl-print-parse-loses:"+c, "PURL %+v prints as %q; parsing that gives %s %q, the wrapped purl library gives %q", *pu, s1, c, a, b)
+					}
+				}
+				diff("type", u2.Type, rp.Type)
+				diff("namespace", u2.Namespace, rp.Namespace)
+				diff("name", u2.Name, rp.Name)
+				diff("version", u2.Version, rp.Version)
+				diff("subpath", u2.Subpath, rp.Subpath)
+				diff("qualifiers", fmt.Sprint(u2.Qualifiers), fmt.Sprint(purl.Qualifiers(rp.Qualifiers)))
+			}
 			s2 := u2.String()
 			u3, err := purl.FromString(s2)
 			if err != nil {
